@@ -42,26 +42,30 @@ Theorem C09_pipeline_original_refuted :
 Proof. exists [([1], [2]); ([1], [3])], [1], [2], [3]. vm_compute. repeat split; auto; discriminate. Qed.
 Print Assumptions C09_pipeline_original_refuted.
 
-(* The pipeline end to end (AddRcpt recording the rewrites, BodyNonAtomic translating the next
-   hop's results back): for any 1-to-N rewrite table, any client recipients and any results, if no
-   address is handed to the next hop twice, the results carry exactly the addresses the client
-   supplied, one per address handed on.  Partial: one pipeline level (nested pipelines are covered
-   by the correspondence only), and the hypothesis excludes the many-to-one case refuted above. *)
+(* The pipeline end to end (AddRcpt recording the rewrites of its level, BodyNonAtomic of each
+   level translating the results of the level below back): for pipelines nested to any depth, any
+   1-to-N rewrite table at each level, any client recipients and any results of the next hop, if no
+   level hands an address on twice ([levels_nodup]), the results carry exactly the addresses the
+   client supplied, one per address handed to the next hop for it, in order.  Partial only in that
+   the hypothesis excludes the many-to-one case refuted above. *)
 Theorem C09_pipeline_end_to_end_partial :
-  forall rw rcpts fails,
-    NoDup (pipe_handed [rw] rcpts) -> map fst (pipe_e2e [rw] rcpts fails) = pipe_want [rw] rcpts.
+  forall rws rcpts fails,
+    levels_nodup rws rcpts -> map fst (pipe_e2e rws rcpts fails) = pipe_want rws rcpts.
 Proof. exact pipeline_results_under_client_addresses. Qed.
 Print Assumptions C09_pipeline_end_to_end_partial.
 
 (* non-vacuity: a forwarding chain whose middle address the client also names (alice -> bob,
    bob -> carol; RCPT alice, RCPT bob): nothing is handed on twice, bob's result goes to alice and
-   carol's to bob *)
+   carol's to bob; and the same with the second rewrite done by a nested pipeline *)
 Example C09_pipeline_chain :
   let rw := [([1], [[2]]); ([2], [[3]])] in
   pipe_e2e [rw] [[1]; [2]] [[3]] = [([1], true); ([2], false)].
 Proof. vm_compute. reflexivity. Qed.
-Example C09_pipeline_chain_hyp : NoDup (pipe_handed [[([1], [[2]]); ([2], [[3]])]] [[1]; [2]]).
-Proof. vm_compute. repeat constructor; cbn; intuition discriminate. Qed.
+Example C09_pipeline_chain_hyp : levels_nodup [[([1], [[2]]); ([2], [[3]])]] [[1]; [2]].
+Proof. cbn. split; [|exact I]. repeat constructor; cbn; intuition discriminate. Qed.
+Example C09_pipeline_nested :
+  pipe_e2e [[([9], [[2]; [4]])]; [([2], [[3]])]] [[9]; [5]] [[3]] = [([9], false); ([9], true); ([5], true)].
+Proof. vm_compute. reflexivity. Qed.
 
 Example C09_example :
   let ta := fun s : str => if is_ascii s then Some s else Some [120] in
